@@ -599,6 +599,18 @@ func keyObjects(tr *hx.Trace, r *hx.Rng, thorough bool) {
 		eq(true, k, []byte{}, func() bool { return k.Equal(ed25519.PrivateKey(nil)) }, "priv vs empty PrivateKey")
 		eq(true, pk, []byte{}, func() bool { return pk.Equal(ed25519.PublicKey{}) }, "pub vs empty PublicKey")
 		eq(true, ed25519.PublicKey{}, []byte{}, func() bool { return ed25519.PublicKey(nil).Equal(ed25519.PublicKey{}) }, "empty pub vs empty pub")
+		// views of the key's OWN storage (same first element, other length; a sub-slice starting later; the same storage as another type)
+		eq(true, k, k[:63], func() bool { return k.Equal(ed25519.PrivateKey(k[:63])) }, "priv vs a shorter view of itself")
+		eq(true, k, k[:32], func() bool { return k.Equal(ed25519.PrivateKey(k[:32])) }, "priv vs its seed half as a view")
+		eq(true, k, k[32:], func() bool { return k.Equal(ed25519.PrivateKey(k[32:])) }, "priv vs its public half as a view")
+		eq(true, k, k[:64:64], func() bool { return k.Equal(ed25519.PrivateKey(k[:64:64])) }, "priv vs a full view of itself")
+		eq(true, pk, pk[:31], func() bool { return pk.Equal(ed25519.PublicKey(pk[:31])) }, "pub vs a shorter view of itself")
+		eq(true, pk, pk[:32:32], func() bool { return pk.Equal(ed25519.PublicKey(pk[:32:32])) }, "pub vs a full view of itself")
+		eq(true, pk, k[:32], func() bool { return pk.Equal(ed25519.PublicKey(k[:32])) }, "pub vs the seed half of the private key")
+		big := append(append([]byte{}, orig...), orig...) // one buffer holding the key twice
+		kb := ed25519.PrivateKey(big[:64])
+		eq(true, kb, big[:96], func() bool { return kb.Equal(ed25519.PrivateKey(big[:96])) }, "priv vs a longer view of the same buffer")
+		eq(true, kb, big[64:], func() bool { return kb.Equal(ed25519.PrivateKey(big[64:])) }, "priv vs an equal key later in the same buffer")
 		for _, kk := range []int{1, 8, 16, 31, 32, 33, 48, 63} { // equal in the first kk bytes only
 			o := append([]byte{}, orig...)
 			for i := kk; i < 64; i++ {
